@@ -35,6 +35,10 @@ pub fn run_case_impl(c: &Case) -> Vec<Out> {
   let built: Vec<Result<rspack_sources::BoxSource, String>> = c.trees.iter().map(|t| catch(|| ctx.build(t))).collect();
   c.script.iter().map(|(i, op)| match (&built[*i], op) {
     (Ok(s), Op::Eq(j)) => match &built[*j] { Ok(o) => match catch(|| s.as_ref() == o.as_ref()) { Ok(b) => Out::Num(b as u64), Err(m) => Out::Panic(m) }, Err(m) => Out::Panic(format!("build: {m}")) },
+    (Ok(_), Op::CustomStream(cl, f)) => match &c.trees[*i] {
+      T::Sms { text, map, inner: None, .. } => { let cu = Custom { text: text.clone(), map: Some(map.build()) }; match catch(|| run_stream(&cu, *cl, *f)) { Ok(r) => Out::Stream(r), Err(m) => Out::Panic(m) } }
+      T::Raw(text) => { let cu = Custom { text: text.clone(), map: None }; match catch(|| run_stream(&cu, *cl, *f)) { Ok(r) => Out::Stream(r), Err(m) => Out::Panic(m) } }
+      _ => Out::Bad("CustomStream on a non-leaf".into()) },
     (Ok(s), op) => run_op_impl(s.as_ref(), op),
     (Err(m), _) => Out::Panic(format!("build: {m}")) }).collect()
 }
@@ -134,6 +138,7 @@ pub fn shrink_case(c: &Case, still_fails: &mut dyn FnMut(&Case) -> bool) -> Case
       if !c2.script.is_empty() && still_fails(&c2) { cur = c2; improved = true; } else { i += 1; }
     }
     for ti in 0..cur.trees.len() {
+      if cur.trees.len() > 1 && cur.note.starts_with("C06") { continue } // composite and children must stay in step
       let mut progress = true;
       while progress && budget > 0 {
         progress = false;
